@@ -18,6 +18,9 @@ pub struct Case {
     pub scalar: bool,
     pub prefix: Vec<RawBar>,
     pub suffix: Vec<RawBar>,
+    /// an additional, very long prefix expanded from a seed (fed before `prefix`): (seed, length, regime, base)
+    #[serde(default)]
+    pub gen_prefix: Option<(u64, usize, usize, X)>,
 }
 
 pub fn check(c: &Case, ctx: &mut Ctx) -> Result<(), Failure> {
@@ -47,6 +50,20 @@ pub fn check(c: &Case, ctx: &mut Ctx) -> Result<(), Failure> {
         }
         *prev = Some(*bar);
     };
+    if let Some((seed, len, regime, base)) = &c.gen_prefix {
+        let mut gen = crate::props::c13::Gen::new(*seed, *regime, base.0, 2 + n);
+        fp.u(*seed);
+        fp.u(*len as u64);
+        for _ in 0..*len {
+            let bar = gen.bar();
+            if scalar {
+                a.next_scalar(bar.c);
+            } else {
+                a.next_bar(&bar);
+            }
+            track(&bar, &mut big, &mut flow_big, &mut prev);
+        }
+    }
     for bar in &c.prefix {
         fp.f(bar.c);
         fp.f(bar.h);
@@ -73,7 +90,7 @@ pub fn check(c: &Case, ctx: &mut Ctx) -> Result<(), Failure> {
         if j + 1 < w {
             continue;
         }
-        let t = c.prefix.len() + j + 1;
+        let t = c.gen_prefix.as_ref().map(|g| g.1).unwrap_or(0) + c.prefix.len() + j + 1;
         let tol = tau(t) * big;
         let mut bad: Option<String> = None;
         match k {
@@ -162,7 +179,7 @@ pub fn check(c: &Case, ctx: &mut Ctx) -> Result<(), Failure> {
     let pmax = c.prefix.iter().map(|b| mag(b)).fold(0.0f64, f64::max);
     let pmin = c.prefix.iter().map(|b| b.l).fold(f64::INFINITY, f64::min);
     let smin = c.suffix.iter().map(|b| b.l).fold(f64::INFINITY, f64::min);
-    if !c.prefix.is_empty() && checked > 0 && (pmax >= 1e3 * smax || pmax > smax || pmin < smin) {
+    if (!c.prefix.is_empty() || c.gen_prefix.is_some()) && checked > 0 && (pmax >= 1e3 * smax || pmax > smax || pmin < smin || c.gen_prefix.is_some()) {
         ctx.nontrivial(fp);
         ctx.label("nontrivial");
         if c.suffix.len() == w {
@@ -201,7 +218,7 @@ fn strategy() -> BoxedStrategy<Case> {
                     b.c *= spike;
                 }
             }
-            Case { cfg, scalar, prefix, suffix: suf.bars }
+            Case { cfg, scalar, prefix, suffix: suf.bars, gen_prefix: None }
         })
         .boxed()
 }
@@ -228,11 +245,30 @@ pub fn run(g: &mut Global) {
             // suffix must be at least w long: clamp the split
             let split = split.min(depth.saturating_sub(w));
             let bars: Vec<RawBar> = d.iter().map(|&x| lbar(EALPHA[x])).collect();
-            Case { cfg: cfg_small(kind, n), scalar: i % 2 == 0, prefix: bars[..split].to_vec(), suffix: bars[split..].to_vec() }
+            Case { cfg: cfg_small(kind, n), scalar: i % 2 == 0, prefix: bars[..split].to_vec(), suffix: bars[split..].to_vec(), gen_prefix: None }
         },
         &check,
     );
     g.random("random", g.tier.pick(50000, 3000000), &strategy, &check);
+    // forgetting after a very long life: more than 2^16 (all O(1)-per-step kinds) and 2^24 (a few) inputs
+    // before the common suffix
+    let seed = g.seed;
+    const UK: [(Kind, usize); 9] = [(Kind::Sma, 14), (Kind::Wma, 5), (Kind::Sd, 20), (Kind::Bb, 9), (Kind::Min, 14), (Kind::Max, 7), (Kind::FastStoch, 14), (Kind::Roc, 9), (Kind::Mfi, 14)];
+    let n24 = g.tier.pick(3u64, 9u64);
+    g.exhaustive(
+        "ultra_prefix",
+        9 * 2 + n24,
+        &move |i| {
+            let (kind, n, plen) = if i < 18 { let (k, n) = UK[(i % 9) as usize]; (k, n, (1usize << 16) + 3 + (i / 9) as usize * 40_000) } else { let (k, n) = UK[((i - 18) % 9) as usize]; (k, n, (1usize << 24) + 5) };
+            let mut s = seed ^ (i + 31).wrapping_mul(0xA0761D6478BD642F);
+            let sd = splitmix(&mut s);
+            let w = kind.memory(n).unwrap();
+            let mut g2 = crate::props::c13::Gen::new(sd ^ 0x5AFF, 0, 85.18, 2 + n);
+            let suffix: Vec<RawBar> = (0..w + [0usize, 1, n][(sd % 3) as usize]).map(|_| g2.bar()).collect();
+            Case { cfg: cfg_small(kind, n), scalar: i % 2 == 0, prefix: vec![], suffix, gen_prefix: Some((sd, plen, [1usize, 0, 2, 4][(sd >> 4) as usize % 4], X(85.18))) }
+        },
+        &check,
+    );
     if g.tier == Tier::Thorough {
         g.fuzz_stage("ops_pred", Some(4), 600_000, "random", &|b| crate::fuzzdec::decode_c17(b), &check);
     }
